@@ -261,4 +261,29 @@ def countEcn (l : List Entry) (ecn : Nat) : Nat :=
 def completedPns (l : List Entry) : List Nat :=
   (l.filter (·.completed)).map (·.pn)
 
+
+/-! ### code facts the model transcribes (re-extracted from /repo on every run, tie G:
+    `QuicModel/Generated/Auth.lean`, `QuicProofs/Bridge/Auth.lean`) -/
+
+/-- `validate_and_decrypt_packet` of every space: header unprotect, AEAD open, `is_duplicate`, and
+    only then the first use of the decryption result; no window insert in there -/
+def pinnedValidateOrder : List String := ["unprotect", "decrypt", "is_duplicate", "use_decrypted"]
+/-- `is_duplicate` only calls `check` -/
+def pinnedIsDuplicateCalls : List String := ["check"]
+/-- `on_processed_packet`: ack manager, then the window insert — the only insert site -/
+def pinnedOnProcessedOrder : List String := ["ack_manager", "window_insert"]
+def pinnedWindowInsertSites : List String := ["on_processed_packet"]
+/-- `handle_cleartext_payload`: interceptor (`rxp`), frame loop, empty check, `on_processed_packet` -/
+def pinnedCleartextOrder : List String :=
+  ["intercept_rx_payload", "frame_loop", "no_frames_check", "on_processed_packet"]
+/-- `handle_{short,handshake,initial}_packet`: closing drop, validate+decrypt, cleartext handler -/
+def pinnedConnOrder : List String := ["closing_drop", "validate_and_decrypt", "handle_cleartext"]
+/-- only `ProcessingError::DecryptError` asks for the stateless-reset comparison -/
+def pinnedResetCheckArms : List String := ["DecryptError"]
+/-- the token map is filled by `PeerIdRegistry` only (peer tokens) -/
+def pinnedResetMapInserts : List String :=
+  ["connection/peer_id_registry.rs:stateless_reset_token", "connection/peer_id_registry.rs:token"]
+/-- `stateless_reset::token::LEN`: the trailer compared is 16 bytes -/
+def resetTokenLen : Nat := 16
+
 end Quic.Compose.Auth
